@@ -2,6 +2,16 @@ mod c01;
 mod c14;
 mod c19;
 mod common;
+#[path = "../../muxsim/src/exec.rs"]
+#[allow(dead_code)]
+mod exec;
+#[path = "../../muxsim/src/link.rs"]
+#[allow(dead_code)]
+mod link;
+#[path = "../../muxsim/src/refcodec.rs"]
+#[allow(dead_code)]
+mod refcodec;
+mod wscontract;
 
 use serde_json::Value;
 use simcore::{Check, Family, Outcome, Prng, Sched, Tier};
@@ -298,6 +308,10 @@ fn lookup(id: &str) -> Option<Check> {
 
 fn main() {
     let args: Vec<String> = std::env::args().collect();
+    if args.get(1).map(|s| s.as_str()) == Some("selftest-ws") {
+        let n = args.get(2).and_then(|s| s.parse().ok()).unwrap_or(20_000);
+        std::process::exit(wscontract::run(n, simcore::default_seed()));
+    }
     let code = simcore::cli(&args, &lookup);
     std::process::exit(code);
 }
